@@ -39,10 +39,10 @@ prop('C19', harness='seqmon', floor=5000, batches={'quick': 1, 'thorough': 1}, s
      assumptions=['internal/seq is built from a staged copy of the working tree under its declared import path github.com/fogfish/golem/seq',
                   'Head/Tail are never applied to an empty sequence (ADT precondition)'])
 
-prop('C18', harness='skipmon', kind='test', floor=5000, batches={'quick': 4, 'thorough': 16}, stage=True,
+prop('C18', harness='skipmon', kind='test', floor=5000, batches={'quick': 4, 'thorough': 16}, stage=True, modes={'quick': ['plain', 'race'], 'thorough': ['plain', 'race']},
      assumptions=['internal/maplike is built from a staged copy of the working tree under its declared import path',
                   'structure is read through the public fmt.Stringer dump; keys contain no whitespace so the dump parses unambiguously',
-                  'single-threaded use (the structure is not concurrent and the property does not ask)'])
+                  'every list is used by one goroutine only (the structure is not concurrent and the property does not ask); several owners, each with a private list, may work at the same time'])
 
 prop('C14', harness='itermon', floor=5000, batches={'quick': 4, 'thorough': 16},
      assumptions=['every leaf is used once per evaluation and rebuilt for the next (the combinators are destructive)',
@@ -355,11 +355,13 @@ def parse_race_logs(paths):
                 for fn, file, line in frames:
                     if '/runtime/' in file or file.startswith('runtime'):
                         continue
+                    if re.search(r'/go[0-9][^/]*/src/|/usr/local/go/src/|/usr/lib/go[^/]*/src/', file) and '/pkg/mod/' not in file:
+                        continue    # standard library (math/rand, sync, ...): the report belongs to whoever called it
                     return fn, file
                 return ('?', '?')
             key = ' <-> '.join(sorted('%s' % (top_user(f)[0]) for f in tops))
             files = [top_user(f)[1] for f in tops]
-            golem = [('fogfish/golem' in f or f.startswith(REPO + '/')) for f in files]
+            golem = [('fogfish/golem' in f or f.startswith(REPO + '/') or 'github.com/fogfish/golem/' in top_user(fr)[0]) for f, fr in zip(files, tops)]
             # harness functions named callerOwns* play a caller writing to memory it owns (its own slice) after the
             # library call it passed it to has returned: a library goroutine racing with that kept the argument
             fns = [top_user(f)[0] for f in tops]
